@@ -150,6 +150,25 @@ theorem pushFix_spec (pq1 : PQ) (x : Item) (hh : IsHeapPQ pq1) :
       rw [this]; simp [pqPush]
     rw [hl]; exact hs.1
 
+/-- `heap.Push` = the interface's `Push` followed by `up` from the last slot — the same as
+`Push; Fix(last)`, because `down` does nothing at a leaf -/
+theorem heapPush_eq_fix (pq : PQ) (x : Item) :
+    heapPush pq x = heapFix pqIface (pqPush pq x) pq.length := by
+  have hl : pqIface.len (pqPush pq x) = pq.length + 1 := by simp [pqIface, pqLen, pqPush]
+  unfold heapPush heapPushFinish heapFix down
+  rw [hl, downLoop_leaf pqIface _ _ pq.length (pq.length + 1) (by omega)]
+  simp
+
+theorem heapPush_spec (pq : PQ) (x : Item) (hh : IsHeapPQ pq) :
+    ((heapPush pq x).map core).Perm (core x :: pq.map core) ∧ IsHeapPQ (heapPush pq x) := by
+  obtain ⟨pq3, h1, h2, h3⟩ := pushFix_spec pq x hh
+  have : pq3 = heapPush pq x := by
+    unfold pqUpdate at h1
+    simp at h1
+    rw [heapPush_eq_fix]; exact h1.symm
+  subst this
+  exact ⟨h2, h3⟩
+
 /-! ## the merged iterator -/
 
 def tag (s : Nat) (e : Nat × Bytes) : Core := (s, e.1, e.2)
